@@ -481,6 +481,8 @@ var corpus = []Replay{
 const flushDeadline = 30 * time.Second
 
 func main() {
+	// time literals are printed and parsed in the local zone: pin it, the verdict must not depend on the host
+	time.Local = time.UTC
 	Main("C05", "C05K", func(c *Ctx) error {
 		var st *store
 		getStore := func() (*store, error) {
